@@ -37,7 +37,25 @@ def main():
             except Exception:
                 pass
         mod = importlib.import_module("checks." + module)
-        res = mod.worker(args)
+        from lib.rec import Rec, StopWorkload
+        import signal
+        budget = float(os.environ.get("VERIF_WATCHDOG", "0") or 0)
+
+        def on_alarm(signum, frame):
+            # generous wall-clock watchdog: firing is INCONCLUSIVE (unless violations were already recorded), never a violation
+            if Rec.current is not None:
+                Rec.current.inconclusive.append("wall-clock watchdog (%ss) fired in worker %s" % (budget, module))
+            raise StopWorkload()
+        if budget > 0:
+            signal.signal(signal.SIGALRM, on_alarm)
+            signal.setitimer(signal.ITIMER_REAL, budget)
+        try:
+            res = mod.worker(args)
+        except StopWorkload:
+            res = Rec.current.result() if Rec.current is not None else {"_failed": "watchdog fired before the workload started"}
+        finally:
+            if budget > 0:
+                signal.setitimer(signal.ITIMER_REAL, 0)
     except BaseException:
         res = {"_failed": "worker exception:\n" + traceback.format_exc()}
     finally:
